@@ -90,6 +90,7 @@ pub struct Cfg {
     pub ff: bool, // fire and forget
     pub msv: u64, // max_servers
     pub mcl: u64, // max_clients
+    pub xb: u64,  // client / server expired connection buffer of the node configuration (0: the default, 128)
 }
 
 impl Cfg {
@@ -110,12 +111,13 @@ impl Cfg {
             ff: b("ff", false),
             msv: u("msv", 1),
             mcl: u("mcl", 2),
+            xb: u("xb", 0),
         }
     }
     pub fn to_json(&self) -> Value {
         json!({"svc": self.svc, "nc": self.nc, "ns": self.ns, "ma": self.ma, "ml": self.ml, "rb": self.rb,
                "mb": self.mb, "mlr": self.mlr, "oq": self.oq, "op": self.op, "ff": self.ff,
-               "msv": self.msv, "mcl": self.mcl})
+               "msv": self.msv, "mcl": self.mcl, "xb": self.xb})
     }
 }
 
